@@ -602,3 +602,289 @@ def outer_if(node, stop):
         return None
     top = ifs[-1][0]
     return getattr(top, 'node', top)
+
+
+class Deps(object):
+    """Intra-procedural value dependencies of a function's local names,
+    flow-insensitive: what expressions contribute to a name, through plain
+    and tuple assignments, keyed stores (d[k] = v), augmented assignments,
+    loop and comprehension targets, container-filling calls
+    (append/add/update/extend/setdefault/insert) and with-targets.  Used to
+    state data-flow obligations independently of whether a collection is
+    built by a loop with stores or by a comprehension."""
+
+    FILL = ('append', 'add', 'update', 'extend', 'setdefault', 'insert')
+
+    def __init__(self, f):
+        self.f = f
+        self.contrib = {}
+        for n in ast.walk(f.node):
+            if isinstance(n, ast.Assign):
+                for t in n.targets:
+                    self._bind(t, n.value)
+            elif isinstance(n, ast.AnnAssign) and n.value is not None:
+                self._bind(n.target, n.value)
+            elif isinstance(n, ast.AugAssign):
+                self._bind(n.target, n.value)
+            elif isinstance(n, (ast.For, ast.comprehension)):
+                self._bind(n.target, n.iter)
+            elif isinstance(n, ast.With):
+                for it in n.items:
+                    if it.optional_vars is not None:
+                        self._bind(it.optional_vars, it.context_expr)
+            elif isinstance(n, ast.Call) and isinstance(
+                    n.func, ast.Attribute) and n.func.attr in self.FILL \
+                    and isinstance(n.func.value, ast.Name):
+                for a in list(n.args) + [k.value for k in n.keywords]:
+                    self._add(n.func.value.id, a)
+            elif isinstance(n, ast.NamedExpr):
+                self._bind(n.target, n.value)
+
+    def _add(self, name, e):
+        self.contrib.setdefault(name, []).append(e)
+
+    def _bind(self, t, v):
+        if isinstance(t, ast.Name):
+            self._add(t.id, v)
+        elif isinstance(t, (ast.Tuple, ast.List)):
+            for x in t.elts:
+                self._bind(x, v)
+        elif isinstance(t, ast.Starred):
+            self._bind(t.value, v)
+        elif isinstance(t, ast.Subscript) and isinstance(t.value, ast.Name):
+            self._add(t.value.id, t.slice)
+            self._add(t.value.id, v)
+
+    def reaches(self, expr, pred, _seen=None, depth=0):
+        """Some expression contributing to ``expr`` satisfies pred."""
+        _seen = _seen if _seen is not None else set()
+        if depth > 12:
+            return False
+        for x in ast.walk(expr):
+            if pred(x):
+                return True
+        for x in ast.walk(expr):
+            if isinstance(x, ast.Name) and x.id not in _seen:
+                _seen.add(x.id)
+                for c in self.contrib.get(x.id, ()):
+                    if self.reaches(c, pred, _seen, depth + 1):
+                        return True
+        return False
+
+
+RP_MUTATORS = {'add_inventory', 'delete_inventory', 'set_inventory',
+               'update_inventory', 'set_aggregates', 'set_traits'}
+
+
+def _direct_mutations(ctx, f):
+    """[(call, receiver expr, method)] for ResourceProvider generation
+    mutators called in f's own body."""
+    out = []
+    for s in ctx.cg.calls_in(f):
+        if s.method in RP_MUTATORS and isinstance(
+                s.node.func, ast.Attribute) and any(
+                    g.cls is not None and g.cls.name == 'ResourceProvider'
+                    for g in s.callees):
+            out.append((s.node, s.node.func.value, s.method))
+    return out
+
+
+def mutator_sites(ctx, impl, depth=2):
+    """[(call node in impl, receiver expression in impl, method name)] for
+    the provider mutators impl applies: ``x.set_traits(...)`` directly, or
+    through a thin same-package helper that applies the mutator to one of
+    its parameters (``_set_traits(x, traits)``), up to ``depth`` levels."""
+    out = list(_direct_mutations(ctx, impl))
+    if depth <= 0:
+        return out
+    for s in ctx.cg.calls_in(impl):
+        for g in s.callees:
+            if g is impl or g.decorators or g.cls is not None or not \
+                    g.module.name.startswith('placement.handlers'):
+                continue
+            for _c, recv, meth in mutator_sites(ctx, g, depth - 1):
+                if not (isinstance(recv, ast.Name) and recv.id in g.params):
+                    continue
+                i = g.params.index(recv.id)
+                a = kwarg(s.node, recv.id)
+                if a is None and i < len(s.node.args):
+                    a = s.node.args[i]
+                if a is not None:
+                    out.append((s.node, a, meth))
+    return out
+
+
+class _Subst(ast.NodeTransformer):
+    def __init__(self, mapping):
+        self.mapping = mapping
+
+    def visit_Name(self, node):
+        if isinstance(node.ctx, ast.Load) and node.id in self.mapping:
+            import copy as _copy
+            return _copy.deepcopy(self.mapping[node.id])
+        return node
+
+
+def _subst(e, mapping):
+    import copy as _copy
+    return _Subst(mapping).visit(_copy.deepcopy(e))
+
+
+def builder_view(f, var, scope=None):
+    """How the local collection ``var`` is built, independent of spelling:
+    a comprehension assigned to it, or the loop idiom (empty initialiser,
+    nested for loops, one append/add/keyed store, optional ``if c:
+    continue`` guards or enclosing ifs).  Returns a dict with kind
+    ('list'/'set'/'dict'), elem (expression; for dicts a (key, value)
+    tuple), gens [(target, iter)], conds [(expr, polarity)], stmt (the
+    outermost statement of the construction) - or None when the variable is
+    not built by exactly one such construction.  Locals defined once inside
+    the loops are inlined into elem and conds."""
+    scope = scope if scope is not None else f.node
+    assigns = [a for a in own_nodes(f.node) if isinstance(a, ast.Assign)
+               and any(isinstance(t, ast.Name) and t.id == var
+                       for t in a.targets)
+               and any(a is x for x in ast.walk(scope))]
+    if len(assigns) != 1:
+        return None
+    a = assigns[0]
+    v = a.value
+    # set(<genexp>) / list(<genexp>) / dict(<genexp of pairs>)
+    if isinstance(v, ast.Call) and isinstance(v.func, ast.Name) and \
+            v.func.id in ('set', 'list', 'sorted', 'tuple') and len(
+                v.args) == 1 and not v.keywords and isinstance(
+                    v.args[0], (ast.GeneratorExp, ast.ListComp,
+                                ast.SetComp)):
+        kind = 'set' if v.func.id == 'set' else 'list'
+        comp = v.args[0]
+        return _comp_view(kind, comp, a)
+    if isinstance(v, (ast.ListComp, ast.SetComp, ast.DictComp)):
+        kind = {'ListComp': 'list', 'SetComp': 'set',
+                'DictComp': 'dict'}[type(v).__name__]
+        return _comp_view(kind, v, a)
+    # loop idiom
+    empty = (isinstance(v, ast.List) and not v.elts) or (
+        isinstance(v, ast.Dict) and not v.keys) or (
+            isinstance(v, ast.Call) and isinstance(v.func, ast.Name)
+            and v.func.id in ('set', 'list', 'dict') and not v.args
+            and not v.keywords)
+    if not empty:
+        return None
+    fills = []
+    for n in own_nodes(f.node):
+        if isinstance(n, ast.Call) and isinstance(
+                n.func, ast.Attribute) and isinstance(
+                    n.func.value, ast.Name) and n.func.value.id == var \
+                and n.func.attr in ('append', 'add', 'extend', 'update',
+                                    'insert', 'setdefault', 'remove', 'pop',
+                                    'discard', 'clear'):
+            fills.append(n)
+        if isinstance(n, ast.Subscript) and isinstance(
+                n.ctx, (ast.Store, ast.Del)) and isinstance(
+                    n.value, ast.Name) and n.value.id == var:
+            fills.append(n)
+        if isinstance(n, ast.AugAssign) and isinstance(
+                n.target, ast.Name) and n.target.id == var:
+            fills.append(n)
+    if len(fills) != 1:
+        return None
+    fill = fills[0]
+    if isinstance(fill, ast.Call) and fill.func.attr in ('append', 'add') \
+            and len(fill.args) == 1:
+        elem = fill.args[0]
+        kind = 'set' if fill.func.attr == 'add' else 'list'
+    elif isinstance(fill, ast.Subscript) and isinstance(
+            fill.ctx, ast.Store) and isinstance(
+                getattr(fill, '_parent', None), ast.Assign):
+        elem = ast.Tuple(elts=[fill.slice, fill._parent.value],
+                         ctx=ast.Load())
+        kind = 'dict'
+    else:
+        return None
+    st = stmt_of(fill)
+    loops = []
+    cur = getattr(st, '_parent', None)
+    while cur is not None and cur is not f.node:
+        if isinstance(cur, ast.For):
+            loops.append(cur)
+        elif isinstance(cur, (ast.While, ast.Try, ast.With)):
+            return None
+        cur = getattr(cur, '_parent', None)
+    if not loops:
+        return None
+    loops.reverse()
+    outer = loops[0]
+    for lp in loops:
+        if lp.orelse:
+            return None
+    # breaks change what is collected
+    if any(isinstance(x, ast.Break) for x in ast.walk(outer)):
+        return None
+    conds_ = conds(st, outer, implicit=True)
+    # single-assignment locals inside the loops
+    local = {}
+    for x in ast.walk(outer):
+        if isinstance(x, ast.Assign) and len(x.targets) == 1 and isinstance(
+                x.targets[0], ast.Name):
+            nm = x.targets[0].id
+            local[nm] = None if nm in local else x.value
+    local = {k: v_ for k, v_ in local.items() if v_ is not None}
+    for _i in range(3):
+        local = {k: _subst(v_, {kk: vv for kk, vv in local.items()
+                                if kk != k}) for k, v_ in local.items()}
+    elem = _subst(elem, local)
+    conds_ = [(_subst(e, local), pol) for e, pol in conds_]
+    return {'kind': kind, 'elem': elem,
+            'gens': [(lp.target, lp.iter) for lp in loops],
+            'conds': conds_, 'stmt': outer, 'init': a}
+
+
+def _comp_view(kind, comp, a):
+    cs = []
+    for g in comp.generators:
+        for c in g.ifs:
+            lits(c, True, cs)
+    if isinstance(comp, ast.DictComp):
+        elem = ast.Tuple(elts=[comp.key, comp.value], ctx=ast.Load())
+    else:
+        elem = comp.elt
+    return {'kind': kind, 'elem': elem,
+            'gens': [(g.target, g.iter) for g in comp.generators],
+            'conds': cs, 'stmt': a, 'init': a}
+
+
+def view_key(view, names=None):
+    """Canonical text of a builder view: generator variables are renamed
+    v0, v1, ... in order; ``names`` maps other local names to placeholders.
+    ``kind{elem | v0 in iter; ... ; if cond; if not cond}``"""
+    if view is None:
+        return None
+    ren = dict(names or {})
+    k = 0
+    for tgt, _it in view['gens']:
+        for x in ast.walk(tgt):
+            if isinstance(x, ast.Name) and x.id not in ren:
+                ren[x.id] = 'v%d' % k
+                k += 1
+
+    def r(e):
+        import copy as _copy
+        e2 = _copy.deepcopy(e)
+        for x in ast.walk(e2):
+            if isinstance(x, ast.Name) and x.id in ren:
+                x.id = ren[x.id]
+        return ast.unparse(e2)
+    gens = '; '.join('%s in %s' % (r(t), r(i)) for t, i in view['gens'])
+    def pos(e, pol):
+        # a not in b / a != b / a is not b  ->  positive operator, flipped
+        flip = {ast.NotIn: ast.In, ast.NotEq: ast.Eq, ast.IsNot: ast.Is}
+        if isinstance(e, ast.Compare) and len(e.ops) == 1 and type(
+                e.ops[0]) in flip:
+            e = ast.Compare(left=e.left, ops=[flip[type(e.ops[0])]()],
+                            comparators=e.comparators)
+            pol = not pol
+        return e, pol
+    cs = sorted(('if ' if pol else 'if not ') + r(e)
+                for e, pol in (pos(e_, p_) for e_, p_ in view['conds']))
+    return '%s{%s | %s%s}' % (view['kind'], r(view['elem']), gens,
+                              ''.join('; ' + c for c in cs))
